@@ -189,6 +189,40 @@ def generate(ctx):
     # one Alignment object as a state machine
     for i in range(ctx.n(90, 800)):
         yield _session_case(rng)
+    # molecules built in a program on lattice sites, their atoms holding INTEGER coordinate arrays
+    # (`AtomGro([1, 'M', 'C0', 1, 0, 1, 2])`): translation and rigid moves treat them like any other molecule (seed
+    # C06-10: `atom.position[:] = pos` in the setter every move goes through casts the new coordinates to the dtype of
+    # the old array).  Only WITHOUT single-atom moves and only integers: `move_mol_atom` adds the displacement in place
+    # to a copy of the array it is given, so integer input is refused there and single-precision input loses digits — on
+    # the unchanged tree, pinned by the repository's own test (its fixture is an integer array): arrays that are not
+    # float64 are outside what C06/C07 can quantify over.
+    for i in range(ctx.n(24, 300)):
+        ne = rng.choice([2, 3, 3, 4, 5, 6])
+        ns = rng.randint(ne, 14)
+        if rng.random() < 0.4:
+            ns, ne = ne, ns
+        scale = 10 ** rng.uniform(-0.3, 0.5)
+        big_is_start = ns >= ne
+        start = _mol(rng, ns, "STA", scale, 0.4 if big_is_start else 0.15, False)
+        end = _mol(rng, ne, "END", scale, 0.15 if big_is_start else 0.4, False)
+        big = start if big_is_start else end
+        if all(n in HNAMES for n in big["names"]):
+            big["names"][0] = "C1"
+        dt = "int64"
+        for m in (start, end):
+            if dt == "int64":
+                m["pos"] = [[float(round(v * 4.0 / scale)) for v in q] for q in m["pos"]]     # distinct lattice sites mostly
+            else:
+                m["pos"] = [[round(v * 64.0) / 64.0 for v in q] for q in m["pos"]]
+            m["dtype"] = dt
+        if dt == "int64" and (len({tuple(q) for q in start["pos"]}) < ns or len({tuple(q) for q in end["pos"]}) < ne):
+            continue            # (two atoms on one site: bonds of length zero are another matter)
+        c = {"kind": "align", "start": start, "end": end, "restr": _restr(rng, ns, ne),
+             "cls": ("mobile-start" if ns < ne else "mobile-end") + ":" + dt}
+        c.update(_opts(rng, 1))       # (n_mobile = 1: subsets without single-atom moves)
+        if c["deform"] is None:
+            c["deform"] = [0, 1]
+        yield c
 
 
 RESNAMES = ["ALA", "GLY", "SER", "LYS", "TRP", "W", "PO4", "ASP"]
@@ -350,6 +384,9 @@ def build(ctx, mol, vel=False):
     _uid[0] += 1
     m = Molecule.from_files(*_write(ctx.scratch, f"m{_uid[0]}", mol))
     m.atoms_positions = np.array(mol["pos"], dtype=float).reshape(-1, 3)   # full-precision coordinates
+    if mol.get("dtype"):
+        for a, q in zip([x for res in m.residues for x in res], mol["pos"]):
+            a.position = np.array(q, dtype=mol["dtype"])
     if vel or mol.get("vel"):
         # velocities on the caller's molecule: the alignment must carry them along untouched, the comparative
         # file must drop them
